@@ -6,7 +6,7 @@ Line-protocol driver for the legacy-listener model (property C16).
   link   :=  ('c'|'k'|'b')('.'|':')        (child / kids / byname, connector after it)
   final  :=  'v' | 'x'                     (value / aux)
   op     :=  sc o f | sk o n | ap o | in o i | dl o i | sl o i j n | cl o
-           | sb o key* | du o key* | dd o key | dc o | pv o | px o | rg | rm
+           | sb o key* | ds o key | dd o key | dc o | pv o | px o | rg | rm
 
 Output, one group per op, joined by " ; ":
   (ok|skip) L=<legacy calls> O=<observe spec calls> P=<lv>/<la>/<ov>/<oa> A=[..][..] H=<hooks>
@@ -70,8 +70,7 @@ def parseOp (s : String) : LOp :=
   | ["cl", o] => match nat? o with | some o => .clear o | _ => .bad
   | "sb" :: o :: keys => match nat? o, keys.mapM nat? with
     | some o, some ks => .op (.setDict o ks) | _, _ => .bad
-  | "du" :: o :: keys => match nat? o, keys.mapM nat? with
-    | some o, some ks => .op (.dictUpdate o ks) | _, _ => .bad
+  | ["ds", o, k] => match nat? o, nat? k with | some o, some k => .op (.dictSet o k) | _, _ => .bad
   | ["dd", o, k] => match nat? o, nat? k with | some o, some k => .op (.dictDel o k) | _, _ => .bad
   | ["dc", o] => match nat? o with | some o => .op (.dictClear o) | _ => .bad
   | ["pv", o] => match nat? o with | some o => .op (.probe o .value) | _ => .bad
